@@ -406,10 +406,21 @@ def main(prop: str, tier: str) -> int:
                     meta.append({'kind': 'directed-fetch-vs-store', 'backend': 'maildir',
                                  'placement': k, 'other': list(map(str, bcmd))})
 
+    # 3i. C02 / C16: a slow idler - its notifications go out one line at a time (drain gated)
+    # while the other session keeps changing the flags of the messages still to be reported
+    if prop in ('C02', 'C16'):
+        slow_idler_histories(traces, meta)
+
     # 3a. C01/C02: every pair (and a seeded sample of triples) of mutations by two sessions
     # where the second session has not been told about the first one's change
     if prop in ('C01', 'C02', 'C04'):
         pair_histories(run, rng, quick, traces, meta)
+
+    # 3v. C04: a name that is given to a NEW mailbox (RENAME INBOX leaves a fresh INBOX behind;
+    # DELETE + CREATE) starts its UIDs again, so it must come with a UIDVALIDITY that name never
+    # had before - also when the incarnations follow each other within one second
+    if prop == 'C04':
+        validity_rounds(run, 700 if quick else 6000)
 
     # 3b. C17: life-cycle histories from the reference model RecentModel.tla (every edge)
     if prop == 'C17':
@@ -447,6 +458,101 @@ def main(prop: str, tier: str) -> int:
     for m in (meta[0], meta[len(behs)] if len(meta) > len(behs) else meta[-1]):
         run.sample(m)
     return run.finish()
+
+
+def slow_idler_histories(traces, meta) -> None:
+    F = ('\\Flagged',)
+    seqs = [
+        [('store', False, '1:2', '+', False, F), 1, ('store', False, '2', '-', False, F), 1,
+         ('store', False, '2', '+', False, F)],
+        [('store', False, '1:3', '+', False, F), 1, ('store', False, '3', '-', False, F),
+         ('store', False, '2', '-', False, F), 2, ('store', False, '2:3', '+', False, F)],
+        [('store', False, '1:3', '+', False, ('\\Deleted',)), 2, ('expunge',), 1,
+         ('append', 'INBOX', 2, ())],
+        [('append', 'INBOX', 2, ()), 1, ('store', False, '4:5', '+', False, F), 1,
+         ('store', False, '5', '-', False, F), 1, ('store', False, '5', '+', False, F)],
+    ]
+    for k, seq in enumerate(seqs):
+        for extra in (0, 1, 2):
+            sr = SyncRun(init_flags=((), (), ()), sessions=['a', 'b'], controlled=True,
+                         claim_recent=True)
+            log = []
+            try:
+                for x in ('a', 'b'):
+                    for c in (('select', 'INBOX'), ('fetch', False, '1:*', False)):
+                        sr.issue(x, c)
+                        sr.finish(x)
+                sr.issue('a', ('idle',))
+                sr.finish('a')
+                sr.w.conns['a'].writer.gate_drain = True
+                for item in seq:
+                    if isinstance(item, int):
+                        for _ in range(item + extra):
+                            if sr.runnable('a'):
+                                sr.step('a')       # one more line of the idler goes out
+                                log.append(('step', 'a'))
+                    else:
+                        sr.issue('b', item)
+                        sr.finish('b')
+                        log.append(('cmd', 'b', item))
+                sr.w.conns['a'].writer.gate_drain = False
+                sr.quiesce()
+                sr.idlecheck()
+                sr.issue('a', ('done',))
+                sr.quiesce()
+                sr.unanswered_idle()
+                sr.probe()
+            finally:
+                sr.close()
+            traces.append(sr.events)
+            meta.append({'kind': 'slow-idler', 'history': k, 'extra_steps': extra, 'schedule': log})
+
+
+def validity_rounds(run, rounds: int) -> None:
+    import re as _re
+    from ..server import World
+    import time as _time
+    w = World('dict', demo=False, users={'user1': 'pass1'})
+    real_time = _time.time
+    frozen = real_time()
+    _time.time = lambda: frozen          # every incarnation is made within the same second
+    try:
+        c = w.connect('a')
+        c.take()
+        w.login('a')
+        w.cmd('a', b'CREATE Box')
+        seen = {'INBOX': {}, 'Box': {}}
+
+        def validity(name):
+            out = w.cmd('a', b'STATUS %s (UIDVALIDITY UIDNEXT)' % name.encode())
+            m = _re.search(rb'UIDVALIDITY (\d+)', out)
+            return int(m.group(1)) if m else None
+        for k in range(rounds):
+            for name, cmds in (('INBOX', [b'APPEND INBOX {7+}\r\nA: b\r\n\r\n',
+                                          b'RENAME INBOX Old%d' % k]),
+                               ('Box', [b'APPEND Box {7+}\r\nA: b\r\n\r\n', b'DELETE Box',
+                                        b'CREATE Box'])):
+                v0 = validity(name)
+                for line in cmds:
+                    w.cmd('a', line)
+                v1 = validity(name)
+                if v0 is None or v1 is None:
+                    run.machinery(f'validity rounds: STATUS {name} unreadable in round {k}')
+                    return
+                seen[name].setdefault(v0, k)
+                if v1 in seen[name]:
+                    run.violation(
+                        f'C04_ValidityFresh: round {k}: the new mailbox now called {name} has '
+                        f'UIDVALIDITY {v1}, which the mailbox of that name had in round '
+                        f'{seen[name][v1]} (its UIDs start again at the beginning)',
+                        {'check': 'C04', 'part': 'validity-rounds', 'name': name, 'round': k,
+                         'validity': v1}, None)
+                    return
+        run.count_exec(('validity-rounds', rounds), nontrivial=True)
+        run.notes['validity_rounds'] = rounds
+    finally:
+        _time.time = real_time
+        w.close()
 
 
 MUTS = [('expunge',), ('uidexpunge', '101'), ('uidexpunge', '101:102'), ('uidexpunge', '102:103'),
